@@ -553,6 +553,61 @@ pub fn run(tier: Tier) -> i32 {
     }
 
     let nimg = images.lock().unwrap().len();
+    // twin lines: two data lines of one program that differ only in the letter case inside a
+    // string or a character literal (where case is data), in both orders, repeated, in flash and
+    // in the EEPROM, at top level and in the body of a macro that is called twice
+    let mut n_twins = 0u64;
+    {
+        // (line with the lower-case literal, with the upper-case one, bytes of each without padding)
+        let le = |v: u64, n: usize| -> Vec<u8> { v.to_le_bytes()[..n].to_vec() };
+        let twins: Vec<(String, String, Vec<u8>, Vec<u8>, bool)> = vec![
+            (".db \"a\"".into(), ".db \"A\"".into(), b"a".to_vec(), b"A".to_vec(), true),
+            (".db \"yes\"".into(), ".db \"YES\"".into(), b"yes".to_vec(), b"YES".to_vec(), true),
+            (".db \"0123456789abcdef\"".into(), ".db \"0123456789ABCDEF\"".into(), b"0123456789abcdef".to_vec(), b"0123456789ABCDEF".to_vec(), true),
+            (".db 1, \"on\", 2".into(), ".db 1, \"ON\", 2".into(), vec![1, b'o', b'n', 2], vec![1, b'O', b'N', 2], true),
+            (".db 'k'".into(), ".db 'K'".into(), vec![b'k'], vec![b'K'], true),
+            (".db 'k', \"Mixed\"".into(), ".db 'K', \"mixed\"".into(), [b"k".to_vec(), b"Mixed".to_vec()].concat(), [b"K".to_vec(), b"mixed".to_vec()].concat(), true),
+            (".dw 'z'".into(), ".dw 'Z'".into(), le(b'z' as u64, 2), le(b'Z' as u64, 2), false),
+            (".dd 'q'".into(), ".dd 'Q'".into(), le(b'q' as u64, 4), le(b'Q' as u64, 4), false),
+            (".dq 'w'".into(), ".dq 'W'".into(), le(b'w' as u64, 8), le(b'W' as u64, 8), false),
+            (".dw 'z', 0xab".into(), ".dw 'Z', 0xAB".into(), [le(b'z' as u64, 2), le(0xab, 2)].concat(), [le(b'Z' as u64, 2), le(0xab, 2)].concat(), false),
+        ];
+        for (l_lo, l_up, b_lo, b_up, is_db) in twins.iter() {
+            for order in [[0usize, 1, 0, 1], [1, 0, 0, 1], [0, 0, 1, 1], [1, 1, 0, 0]] {
+                for seg in ["cseg", "eseg"] {
+                    for in_macro in [false, true] {
+                        let mut body = String::new();
+                        let mut want: Vec<u8> = vec![];
+                        for w in order {
+                            body.push_str(if w == 0 { l_lo } else { l_up });
+                            body.push('\n');
+                            want.extend(if w == 0 { b_lo.iter() } else { b_up.iter() });
+                            // in flash every .db line is padded to a whole word
+                            if *is_db && seg == "cseg" && want.len() % 2 == 1 {
+                                want.push(0);
+                            }
+                        }
+                        let src = if in_macro {
+                            want = [want.clone(), want].concat();
+                            format!(".macro twin_m\n.{}\n{}.cseg\n.endm\ntwin_m\ntwin_m\n", seg, body)
+                        } else {
+                            format!(".{}\n{}", seg, body)
+                        };
+                        let o = sut::build_str(&src);
+                        evals.fetch_add(1, Ordering::Relaxed);
+                        n_twins += 1;
+                        let good = match &o {
+                            Outcome::Ok(b) => if seg == "cseg" { b.code == want && b.eeprom.is_empty() } else { b.eeprom == want && b.code.is_empty() },
+                            _ => false,
+                        };
+                        if !good {
+                            rep.violation(&format!("C06/twin-lines/directive={}/segment={}/in-macro={}", l_lo.split(' ').next().unwrap_or(""), seg, in_macro), || format!("lines that differ only in the letter case inside a literal (`{}` / `{}`) must give {} but {}", l_lo, l_up, sut::hex(&want), match &o { Outcome::Ok(b) => format!("code {} eeprom {}", sut::hex(&b.code), sut::hex(&b.eeprom)), other => other.brief() }), || json!({"kind": "build_str", "source": src, "expected": {"result": "ok", "image": sut::hex(&want)}, "observed": o.to_json()}));
+                        }
+                    }
+                }
+            }
+        }
+    }
     rep.guard(n_ok.load(Ordering::Relaxed) > 1000 && n_err.load(Ordering::Relaxed) > 1000, "need both Ok and Err outcomes");
     rep.guard(nimg > 500, "fewer than 500 distinct images");
     rep.sample(|| { let a = alphabet(Dir::Dw); let ops = vec![a[3].clone(), a[6].clone(), a[4].clone()]; json!({"source": program(Seg::C, &[line(Dir::Dw, &ops)]), "expected_flash": emit(Dir::Dw, &ops, true).map(|b| sut::hex(&b))}) });
@@ -562,6 +617,7 @@ pub fn run(tier: Tier) -> i32 {
     rep.assume("legal ranges: .db -128..255, .dw -32768..65535, .dd -2^31..2^32-1, .dq any i64 (overflowing expressions must fail)");
     let coverage = cov(json!({
         "evaluations": evals.load(Ordering::Relaxed),
+        "twin_line_programs": n_twins,
         "distinct_nontrivial": nimg,
         "rule": "4 directives x every operand list of length 1..4 (thorough 5) over a 17-symbol alphabet (0, 1, 0x7f, width max, max+1, -1, width min, min-1, .equ symbol, forward label, expression, \"\", \"a\", \"ab\", \"a,b;c\", \"é\", a string with backslashes) x {cseg, eseg, dseg}; plus every sequence of <=4 (thorough 6) lines over {odd .db, 5-byte .db, even .db, .dw, .dd, .dq, .byte 1, .byte 3} in each segment; plus .db strings made of a run (8 lengths up to 1000, thorough 17 up to 4000) of each printable ASCII character and of 5 others, alone and between other operands, in flash and EEPROM; plus every directive with symbols whose value does not fit the narrower widths (a label beyond 64 K words, large, negative and 33-bit constants, a .set variable, bare and in expressions); distinct_nontrivial = distinct non-empty-or-empty expected images that were confirmed",
         "exhaustive": true,
